@@ -23,7 +23,7 @@ def prop(pid, **kw):
 
 prop("C17",
      bounds="all 256 accumulator states x all 256 byte values for add/sub/value; slices of concrete length "
-            "0..=10, 64 and 260 with symbolic bytes (1100 symbolic, all-0xFF and alternating bytes in the thorough tier); sink entry points with symbolic operands; symbolic programs of k<=3 (quick) / "
+            "0..=10, 64 and 260 with symbolic bytes, plus append of 1100 x 0xFF from every state (1100 symbolic, all-0xFF and alternating bytes with append+delete in the thorough tier); sink entry points with symbolic operands; symbolic programs of k<=3 (quick) / "
             "k<=5 (thorough) operations chosen among add/sub/append/delete/sink.vec/append+delete with slices <=3 bytes",
      outside="slices longer than 260 bytes (quick) / 1100 bytes (thorough) and lengths in between that are not listed; operation sequences longer than 5",
      explanation="Checksum is loop-over-slice arithmetic on one u8; every state is reached by add(s) from default.",
@@ -31,8 +31,8 @@ prop("C17",
                 "value the SAT/SMT back end shows the mod-256 sum, inverse and value() laws; symbolic operation programs "
                 "up to the stated length. Right level: the object is one u8 and loop-over-slice arithmetic, so the solver "
                 "covers the full 256x256 space the tests sample.",
-     level_note="Trusted: Kani/CBMC translation of MIR, cadical/z3. Slices bounded as listed, programs to 5 operations. A change that misbehaves only on slices longer than 260 bytes is seen by the thorough tier only (seeded change C17_m1).",
-     mir=True, jobs=12, timeout=300, fs_array=4096)
+     level_note="Trusted: Kani/CBMC translation of MIR, cadical/z3. Slices bounded as listed, programs to 5 operations. Beyond 260 bytes the quick tier has one concrete content (1100 x 0xFF, the heaviest input for a lane-wise sum; seeded change C17_m1); other contents at that length are thorough-tier.",
+     mir=True, jobs=12, timeout=600, fs_array=4096)
 
 K = "Kani 0.68 compiles the crate and the harness to a goto program; CBMC 6.11 unwinds it to the stated bound (unwinding assertions on) and the SAT/SMT back end decides every check for all symbolic values at once."
 TRUST = "Trusted: kani-compiler's MIR->goto translation, CBMC, cadical/z3; memory-safety instrumentation is off (the crate is 100% safe Rust); allocation never fails; hooks are pass-throughs."
